@@ -147,6 +147,16 @@ for _p, _t in (("C02", "R-PROV cached frontier monotone in Update::integrate; ev
                ("C17", "R-GUARD the XML tree walk stays in its subtree")):
     EXTRA3[_p] = (EXTRA3[_p][0] + "; " + _t, EXTRA3[_p][1])
 
+# clauses added during / after the fourth seeded round
+EXTRA4 = {
+    "C03": ("R-ORDER cursor written back before a BlockIter method delegates to another", "Also decides the cursor write-back in BlockIter::delete / slice."),
+    "C06": ("R-PROV the four trim functions and the BlockSlice dispatch; first block trimmed whatever its kind", "Also decides the trim functions."),
+    "C11": ("exact decision tables of map key changes (event_keys) and sequence changes (event_change_set) by truth table", "Also decides the decision tables of key and sequence changes (not the delta construction of text)."),
+    "C12": ("redone-chain rule crate-wide incl. Store::follow_redone; offset base inside a chain walk", "Also decides follow_redone."),
+    "C17": ("R-GUARD every consumer of a formatting mark under liveness (42 sites); Branch::first returns live items only", "Also decides the generalised attribute bookkeeping clause and the head-of-list selector."),
+    "C19": ("R-TABLE cell kind tables (input tag -> TypeRef, From<T> for YOutput -> tag)", "Also decides the input and output cell-kind tables."),
+}
+
 PENDING = {
 }
 
@@ -155,7 +165,7 @@ def main():
     checks = []
     for pid in sorted(CHECKS):
         tech, text, ref = CHECKS[pid]
-        for ex in (EXTRA, EXTRA2, EXTRA3):
+        for ex in (EXTRA, EXTRA2, EXTRA3, EXTRA4):
             if pid in ex:
                 tech = tech + "; " + ex[pid][0]
                 text = text + " " + ex[pid][1]
